@@ -230,6 +230,6 @@ func genSrvShape(rt *rapid.T) []byte {
 	disc := pick[byte](rt, "svcName", 0, 0, 1, 2, 3) | byte(uni(rt, 8, "hostUniq"))<<2 | bits(rt, "discFlow", 15, 15, 30)<<5
 	lcp := bits(rt, "lcpOpts", 50, 60, 25, 25, 15, 10, 20, 30)
 	pap := byte(uni(rt, 64, "papLens")) | bits(rt, "papFlow", 20, 30)<<6
-	ipcp := pick[byte](rt, "ipOpt", 0, 0, 1, 2, 3) | bits(rt, "ipcpFlow", 50, 30, 40, 20)<<2 | pick[byte](rt, "others", 0, 0, 0, 1, 2, 3)<<6
+	ipcp := pick[byte](rt, "ipOpt", 0, 0, 1, 2, 3) | bits(rt, "ipcpFlow", 50, 30, 40, 26)<<2 | pick[byte](rt, "others", 0, 0, 0, 1, 2, 3)<<6
 	return []byte{1, disc, lcp, pap, ipcp, byte(uni(rt, 256, "order"))}
 }
